@@ -67,3 +67,9 @@ claim("C14",
       "Decides structural totality clauses of the two hand-written decoders (protobuf wire parser, unserialize): every index/slice of the input is in bounds on every path (each Consume* length is tested before use), success is returned only when no input is left, every recursion cycle passes the depth guard and increments depth, and allocations sized by decoded numbers are bounded by the remaining input. Encoder faithfulness, round trips, which inputs are well-formed, machine-integer overflow and JSON (delegated to encoding/json) are not decided.",
       "protowire.Consume* contract (n <= len(b) or negative); unbounded-integer arithmetic in the zone domain; A-IDX-NONNEG",
       "DESIGN.md §2 C14")
+
+claim("C12",
+      "ownership/effect check of TempVM's methods; whole-program call-graph reachability (VTA over go/ssa, module edges) from each delegated base-VM method to the base VM's Add*; parser-binding and table-escape checks",
+      "Decides the structure that keeps request-scoped definitions inside their TempVM: Add* write only the TempVM's own tables, no TempVM method delegates to a base-VM method that can reach the base VM's Add* (three existing delegations are listed findings), the TempVM parses with a parser cloned and bound to itself, every lookup consults the base VM, and the private tables never escape. What earlier requests did (histories) and the deliberately shared file cache / constants are not decided.",
+      "call graph is VTA refined from CHA, traversed through module functions with closures treated as called by their creator; intentional process-wide registrations listed as assumed",
+      "DESIGN.md §2 C12")
